@@ -150,6 +150,12 @@ _CONSTANT_COMPARATORS = {
 }
 
 
+# Stands for a "*" index step among the raw values of an object path.  (Not the
+# string: a property can be named "*" as well.  Not a number: the grammar
+# admits negative indices too.)
+STAR_INDEX_STEP = object()
+
+
 def object_path_component_cmp(comp1, comp2):
     """
     Compare a string/int to another string/int; this induces an ordering over
@@ -168,8 +174,12 @@ def object_path_component_cmp(comp1, comp2):
         greater than the second
     """
 
+    # the "*" index step comes before everything else
+    if comp1 is STAR_INDEX_STEP or comp2 is STAR_INDEX_STEP:
+        result = (comp1 is not STAR_INDEX_STEP) - (comp2 is not STAR_INDEX_STEP)
+
     # both ints or both strings: use builtin comparison operators
-    if (isinstance(comp1, int) and isinstance(comp2, int)) \
+    elif (isinstance(comp1, int) and isinstance(comp2, int)) \
             or (isinstance(comp1, str) and isinstance(comp2, str)):
         result = generic_cmp(comp1, comp2)
 
@@ -187,8 +197,8 @@ def object_path_to_raw_values(path):
     """
     Converts the given ObjectPath instance to a list of strings and ints.
     All property names become strings, regardless of whether they're *_ref
-    properties; "*" index steps become -1; and numeric index steps become
-    integers.
+    properties; "*" index steps become STAR_INDEX_STEP; and numeric index steps
+    become integers.
 
     Args:
         path: An ObjectPath instance
@@ -202,9 +212,7 @@ def object_path_to_raw_values(path):
             yield comp.property_name
 
             if comp.index == "*":
-                # (not the string: a property can be named "*" as well.
-                # Numeric indices are never negative.)
-                yield -1
+                yield STAR_INDEX_STEP
             elif isinstance(comp.index, int):
                 yield comp.index
             else:
